@@ -1,4 +1,4 @@
-HOOK_COMMITS = ["f2f06c6"]
+HOOK_COMMITS = ["f2f06c6", "5776d68"]
 
 TEXT = {
  "C02": {
@@ -9,8 +9,8 @@ TEXT = {
  },
  "C03": {
   "technique": "property-based testing (rapid) with a schedule-owning explorer; liveness judged by a goroutine-state deadlock detector, stall safety by a reference model of learned/queried contacts",
-  "level": "Generated schedules of query completion, late AddNodes and Stop. Liveness (stall is reported, Stop completes) is decided by 'every module goroutine is blocked and the awaited event has not happened', safety of each stall report by an independent model. A lost wake-up that needs one specific preemption inside the operation's critical sections can be missed.",
-  "note": "Deadline hits with runnable goroutines are reported as inconclusive (exit 2), never as violations.",
+  "level": "Generated schedules of query completion, late AddNodes and Stop. Liveness (stall is reported, Stop completes) is decided by 'every module goroutine is blocked and the awaited event has not happened', safety of each stall report by an independent model. A lost wake-up that needs one specific preemption inside the operation's critical sections can be missed, except the one preemption point the harness owns through a hook (run loop between unlock and select, sub-property C03b).",
+  "note": "Deadline hits with runnable goroutines are reported as inconclusive (exit 2), never as violations. C03b uses the VerifBeforeSelect hook to hold the run loop between releasing its lock and its select; the stale stall report this exposes is a genuine defect recorded as an open known finding (C03:stale-stall-after-addnodes), printed as KNOWN-FINDING and not counted as a violation.",
   "ref": "DESIGN.md section 4, C03",
  },
  "C04": {
